@@ -108,10 +108,10 @@ class Tracker:
             self.cl[name]["triggers"].append(("app", self.saw_peer(name)))
         elif a == "ConnFail":
             self.cl[act["c"]]["triggers"].append(("connfail", False))
-        elif a in ("TamperS2C", "Inject", "Dup", "SwapS2C"):
-            if a in ("TamperS2C", "Inject"):
+        elif a in ("TamperS2C", "Inject", "Dup", "SwapS2C", "WithholdS2C"):
+            if a in ("TamperS2C", "Inject", "WithholdS2C"):
                 self.tampered = True
-            if a in ("SwapS2C", "Inject", "TamperS2C"):
+            if a in ("SwapS2C", "Inject", "TamperS2C", "WithholdS2C"):
                 self.order_preserving = False
         elif a == "ArmRaise":
             self.app_bug = True
